@@ -191,6 +191,28 @@ func c15Case(c *fw.Case, typ string, allBits bool) {
 			c.Failf("verifies-under-other-key", map[string]interface{}{"jws": compact, "signer_jwk": k.JWK(), "other_jwk": o.JWK()}, "JWS verifies under a different %s key", ot)
 		}
 	}
+	// the JWK object that has just verified the JWS is overwritten in place with another key's coordinates (and a struct copy of it is
+	// edited): what verifies is decided by what the object holds now
+	if o := gen.NewKey(r, typ); true {
+		oj := toLibJWK(o.JWK())
+		cp := *jwk
+		cp.X, cp.Y = oj.X, oj.Y
+		c.Count("jwk-object-modified-after-use", 1)
+		c.Evals(2)
+		c.Sig("jwk-modified", typ)
+		if _, err := jwsutil.VerifyJWS(compact, &cp); err == nil {
+			c.Failf("verifies-under-edited-copy-of-used-jwk", map[string]interface{}{"jws": compact, "signer_jwk": k.JWK(), "edited_copy_holds": o.JWK()}, "a copy of the used JWK, edited to hold another %s key, still verifies the JWS", typ)
+		}
+		saveX, saveY := jwk.X, jwk.Y
+		jwk.X, jwk.Y = oj.X, oj.Y
+		if _, err := jwsutil.VerifyJWS(compact, jwk); err == nil {
+			c.Failf("verifies-under-overwritten-jwk-object", map[string]interface{}{"jws": compact, "signer_jwk": k.JWK(), "object_now_holds": o.JWK()}, "the used JWK object, overwritten with another %s key, still verifies the JWS", typ)
+		}
+		jwk.X, jwk.Y = saveX, saveY
+		if _, err := jwsutil.VerifyJWS(compact, jwk); err != nil {
+			c.Failf("valid-jws-refused", map[string]interface{}{"jws": compact, "jwk": k.JWK(), "err": err.Error()}, "the JWK object restored to the signer's key no longer verifies: %v", err)
+		}
+	}
 	// bit flips
 	parts := strings.Split(compact, ".")
 	names := []string{"header", "payload", "signature"}
@@ -519,14 +541,20 @@ func c15Options(c *fw.Case) {
 			other = append([]byte{}, payload...)
 			other[r.Intn(len(other))] ^= 1 << uint(r.Intn(8))
 		}
-		for _, b64 := range []string{"absent", "true", "false"} {
+		for _, b64 := range []string{"absent", "true", "false", "absent+crit", "true+crit", "false+crit", "true+crit-other"} {
 			signer := signerFor(k, "")
 			hdr := jws.Headers{}
 			for hk, hv := range signer.Headers() {
 				hdr[hk] = hv
 			}
-			if b64 != "absent" {
-				hdr[jws.HeaderB64Payload] = b64 == "true"
+			if strings.HasPrefix(b64, "true") || strings.HasPrefix(b64, "false") {
+				hdr[jws.HeaderB64Payload] = strings.HasPrefix(b64, "true")
+			}
+			if strings.HasSuffix(b64, "+crit") {
+				hdr["crit"] = []interface{}{"b64"} // the header is marked critical: says nothing about its value
+			}
+			if strings.HasSuffix(b64, "+crit-other") {
+				hdr["crit"] = []interface{}{"exp"}
 			}
 			obj, err := jwsutil.NewJWS(hdr, nil, payload, signer)
 			if err != nil {
